@@ -118,6 +118,7 @@ fn table() -> TableHandler {
             rf(true, &[], &[]),                                           // 9: RF, matches no frame
             rf(true, &[], &[0, 1]),                                       // 10: timed, blocks a and b
             rf(true, &[0], &[0]),                                         // 11: uses AND blocks a (outside the hypothesis)
+            rf(false, &[], &[0]),                                         // 12: UNTIMED, uses nothing, blocks a (RESET-like)
         ],
     }
 }
@@ -178,6 +179,13 @@ fn run(ctx: &mut Ctx) {
             let input = project_program(&program, &handler);
             ctx.case(tagged("table", vec![input]), || run_from_program(&program, &handler));
         });
+    }
+
+    // frame-set shapes: RF instructions with used = {} and blocked != {}, projected and as AST
+    for text in frame_shape_programs() {
+        let program = parse(&text);
+        program_case(ctx, "corpus", &program);
+        ast_case(ctx, &text);
     }
 
     // 4. random Quil-T programs, default handler
